@@ -553,6 +553,7 @@ pub fn handle(req: &J) -> J {
     }
     if wants("class_folds") {
         resp.insert("class_folds".into(), J::Array(s.folds.clone()));
+        resp.insert("class_folds_tail".into(), J::Array(s.folds_tail.iter().cloned().collect()));
     }
     let _ = KnownWord::zero();
     J::Object(resp)
